@@ -642,8 +642,33 @@ def gen_doc(rng, size=None, bias="mixed"):
     # ---- boundary / conflict tricks on the links (before templates are drawn)
     trick = None
     if bias in ("unsat", "boundary"):
-        trick = rng.choice(["template", "template", "selfpair", "palindrome", "meeting"] if bias == "unsat"
-                           else ["near", "meeting", "selfpair-even", "palindrome-even", "near"])
+        trick = rng.choice(["template", "template", "selfpair", "palindrome", "meeting", "homodimer"] if bias == "unsat"
+                           else ["near", "meeting", "selfpair-even", "palindrome-even", "near", "homodimer-even"])
+    if trick in ("homodimer", "homodimer-even"):
+        # one strand twice in a complex, paired antiparallel with its own copy: position i of the first copy pairs with
+        # position L-1-i of the second; for odd L the middle position is paired with itself
+        odd = trick == "homodimer"
+        cands = [n for n in sorder if strands[n] and len(strands[n]) % 2 == (1 if odd else 0)]
+        if cands:
+            s_ = rng.choice(cands)
+            nucs = strands[s_]
+            L = len(nucs)
+            lo = rng.randint(0, (L - 1) // 2) if rng.random() < 0.5 else 0
+            pairs = []
+            for i in range(lo, L - lo):
+                (p, x, c), (q, y, e) = nucs[i], nucs[L - 1 - i]
+                if try_link((p, x), (q, y), int(c == e), force=odd):
+                    pairs.append((i, 2 * L - 1 - i))
+                elif not odd:
+                    pairs = [pq for pq in pairs if pq[0] < i and pq[1] > 2 * L - 1 - i]
+                    break
+            # keep the pairing symmetric (i ~ L-1-i and L-1-i ~ i are the same link)
+            keep = {i for i, _ in pairs}
+            pairs = [(i, j) for i, j in pairs if (L - 1 - i) in keep]
+            name = _fresh(rng, STRUCT_POOL, used_struct, "HD")
+            stmts_struct.append({"k": "struct", "name": name, "params": rng.choice([None, "1nt"]), "strands": [s_, s_],
+                                 "struct": _dot_paren([L, L], pairs)})
+            meta["tricks"].append(trick)
     if trick in ("selfpair", "selfpair-even"):
         odd = trick == "selfpair"
         cands = [n for n in doml if doml[n] % 2 == (1 if odd else 0) and 2 * doml[n] <= size["nt"] + 20]
